@@ -854,7 +854,18 @@ func (g *graph) compile(ctx context.Context, opt *graphCompileOptions) (*composa
 		}
 		inputPairs[END] = r.outputStreamConvertPair
 		outputPairs[START] = r.inputStreamConvertPair
-		r.checkPointer = newCheckPointer(inputPairs, outputPairs, opt.checkPointStore)
+		// a channel holds what the edge handlers made of the sender's output: on an edge with field mappings that
+		// is the mapped form, whatever the sender's type
+		mappedEdges := make(map[string]map[string]bool, len(g.fieldMappingRecords))
+		for receiver, mappings := range g.fieldMappingRecords {
+			for _, mapping := range mappings {
+				if mappedEdges[receiver] == nil {
+					mappedEdges[receiver] = make(map[string]bool)
+				}
+				mappedEdges[receiver][mapping.fromNodeKey] = true
+			}
+		}
+		r.checkPointer = newCheckPointer(inputPairs, outputPairs, mappedEdges, opt.checkPointStore)
 
 		r.interruptBeforeNodes = opt.interruptBeforeNodes
 		r.interruptAfterNodes = opt.interruptAfterNodes
